@@ -323,8 +323,10 @@ class _Ctx:
     pass
 
 
-def observe(neighbor, neg, enc, body, preload=None):
-    """real decode -> (json message dict, Adj-RIB-In content)"""
+def observe(neighbor, neg, enc, body, preload=None, repeat=False):
+    """real decode -> (json message dict, Adj-RIB-In content)
+    repeat: the peer sends the same UPDATE twice in a row (a route-refresh answer, a re-advertisement); the caches
+    are left as the daemon would have them and what is observed is the report and the table after the second copy"""
     from exabgp.bgp.message import Message
     from exabgp.bgp.message.update.attribute.collection import AttributeCollection
     from exabgp.reactor.peer.handlers.update import UpdateHandler
@@ -346,8 +348,14 @@ def observe(neighbor, neg, enc, body, preload=None):
         if not m.IS_EOR:
             for _ in handler.handle(ctx, m):
                 pass
-    if hasattr(AttributeCollection, 'cached'):
+    if hasattr(AttributeCollection, 'cached') and not repeat:
         AttributeCollection.cached = None
+    if repeat:
+        first = Message.unpack(w.UPDATE, body, neg)
+        if not first.IS_EOR:
+            enc.update(neighbor, 'receive', first.data, b'', b'', neg)
+            for _ in handler.handle(ctx, first):
+                pass
     m = Message.unpack(w.UPDATE, body, neg)
     coll = m if m.IS_EOR else m.data
     js = enc.update(neighbor, 'receive', coll, b'', b'', neg)
@@ -529,6 +537,13 @@ def worker(args):
             viols = compare(case, s, msg, table, is_eor, preloaded)
         except Exception as e:  # noqa: BLE001
             viols = [(f'exception:{type(e).__name__}', f'{type(e).__name__}: {str(e)[:200]}')]
+        # the same UPDATE sent twice in a row on the session: the second copy must be reported and stored like the first
+        res['exec'] += 1
+        try:
+            msg2, table2, is_eor2 = observe(n, neg, enc, body, preload=[pre_body], repeat=True)
+            viols += [('repeated:' + sig, what + ' [second of two identical UPDATEs in a row]') for sig, what in compare(case, s, msg2, table2, is_eor2, preloaded)]
+        except Exception as e:  # noqa: BLE001
+            viols += [(f'repeated:exception:{type(e).__name__}', f'{type(e).__name__}: {str(e)[:200]}')]
         res['outcomes'].add((sidx, len(case['struct'][0]), len(case['struct'][1]), case['struct'][2] is not None and case['struct'][2][:2], case['struct'][3] is not None, tuple(sorted(case['attrs'])), bool(viols)))
         for sig, what in viols:
             v = res['viol'].get(sig)
@@ -657,4 +672,9 @@ def replay(case):
         viols = compare(c, s, msg, table, is_eor, preloaded)
     except Exception as e:  # noqa: BLE001
         viols = [(f'exception:{type(e).__name__}', f'{type(e).__name__}: {str(e)[:200]}')]
+    try:
+        msg2, table2, is_eor2 = observe(n, neg, enc, body, preload=[pre_body], repeat=True)
+        viols += [('repeated:' + sig, what) for sig, what in compare(c, s, msg2, table2, is_eor2, preloaded)]
+    except Exception as e:  # noqa: BLE001
+        viols += [(f'repeated:exception:{type(e).__name__}', f'{type(e).__name__}: {str(e)[:200]}')]
     return [{'signature': a, 'what': b} for a, b in viols]
